@@ -295,7 +295,13 @@ class AORun(object):
     for idx in range(len(h)):
       seq, tn, kind, lab, op, detail = h[idx]
       if kind == 'deque' and lab == label:
-        out.append((seq, tn, op, getattr(detail, 'payload', None) if op in ('append', 'appendleft', 'popleft', 'pop') else detail, ht[idx]))
+        if op in ('append', 'appendleft', 'popleft', 'pop'):
+          pl = getattr(detail, 'payload', None)
+          if not isinstance(pl, str):
+            pl = None      # meta events carry structured payloads; they are not user events
+        else:
+          pl = detail
+        out.append((seq, tn, op, pl, ht[idx]))
     return out
 
 
